@@ -88,3 +88,30 @@ Theorem C02_gen_reporters_match :
        all_report_keys = true.
 Proof. split; vm_compute; reflexivity. Qed.
 Print Assumptions C02_gen_reporters_match.
+
+(** "The check predicate holds on the model" (built by a separate pass; proofs in Proofs/PredOnModelC02.v): the boolean
+    predicate the check evaluates on OBSERVED behaviour is true of the model's own output for all inputs, and
+    correspondence on an input implies the property on that input. *)
+From Exactly Require Import Proofs.PredOnModelC02.
+(** ** C02.  Every output mode, every processing result, every exit code [c : Z] of the action. *)
+Theorem C02_check_predicate_holds_on_model : forall m r, check_c02 (obs_of_model_c02 m r) = (true, true).
+Proof. exact check_c02_on_model. Qed.
+Print Assumptions C02_check_predicate_holds_on_model.
+
+Theorem C02_check_halves_agree : forall c, fst (check_c02 c) = snd (check_c02 c).
+Proof. exact check_c02_halves_agree. Qed.
+Print Assumptions C02_check_halves_agree.
+
+Theorem C02_correspondence_implies_property : forall c, fst (check_c02 c) = true -> snd (check_c02 c) = true.
+Proof. exact corr_implies_property_c02. Qed.
+Print Assumptions C02_correspondence_implies_property.
+
+Theorem C02_usage_predicate_holds_on_model : check_usage report_invalid_usage = (true, true).
+Proof. exact check_usage_on_model. Qed.
+Print Assumptions C02_usage_predicate_holds_on_model.
+
+Theorem C02_usage_correspondence_implies_property : forall obs,
+  fst (check_usage obs) = true -> snd (check_usage obs) = true.
+Proof. exact corr_implies_property_usage. Qed.
+Print Assumptions C02_usage_correspondence_implies_property.
+
